@@ -386,6 +386,19 @@ def run_impl(case):
             out["cx"] = [float(v) for v in cf(points[0])]
             out["cond"] = _call(p.func, list(points[0]))
             return out
+        # extra arguments of the caller reach the decorated function (and only it), for every penalty kind
+        try:
+            import mystic.penalty as mp
+            probe = []
+            for kind_ in ("quadratic_equality", "quadratic_inequality", "linear_equality", "linear_inequality", "uniform_equality", "uniform_inequality",
+                          "lagrange_equality", "lagrange_inequality", "barrier_inequality"):
+                base2 = lambda x, shift=0.0: float(sum(x)) + shift
+                pz = getattr(mp, kind_)(lambda x: -1.0 if kind_.endswith("inequality") else 0.0, k=1.0)(base2)      # condition satisfied: no penalty term
+                x_ = list(points[0])
+                probe.append([kind_, _call(pz, x_), _call(pz, x_, 2.5), _call(lambda x: pz(x, shift=-1.5), x_)])
+            out["extra_args"] = probe
+        except Exception as e:
+            out["extra_args_error"] = type(e).__name__
         mh = []
         for m in case["members"]:
             hs = _build_nest(m, make_base(m["base"]))
@@ -658,6 +671,11 @@ def oracle(case, obs):
         return [_fail("no-crash", "penalty", obs["__exception__"], obs.get("__msg__"))]
     points = case["points"]
     mode = case["mode"]
+    for kind_, v0, v1, v2 in obs.get("extra_args", []):
+        if _isnum(v0) and math.isfinite(v0) and not (_isnum(v1) and _isnum(v2) and _close(v1, v0 + 2.5) and _close(v2, v0 - 1.5)):
+            out.append(_fail("returns_decorated_value_where_satisfied", "penalty." + kind_, "extra-arguments-not-forwarded-to-the-decorated-function",
+                             dict(plain=v0, positional=v1, keyword=v2)))
+            break
     for pair in obs.get("and_dup", []):
         a, b = pair
         if _isnum(a) and _isnum(b) and math.isfinite(a) and math.isfinite(b) and not _close(b, a):
